@@ -839,7 +839,7 @@ fn judge_one(exp: &Exp, got: &T) -> Result<Option<String>, String> {
         }
         Exp::Err(formal) => match got {
             T::Cmp(n, args) if n == "ex" && args.len() == 1 => match &args[0] {
-                T::Cmp(e, eargs) if e == "error" && eargs.len() == 2 && eargs[0].identical(formal) => Ok(None),
+                T::Cmp(e, eargs) if e == "error" && eargs.len() == 2 && strip_alias(&eargs[0]).identical(formal) => Ok(None),
                 other => Err(format!("expected error {} got ball {}", formal.text(), other.text())),
             },
             other => Err(format!("expected error {} got {}", formal.text(), other.text())),
@@ -887,6 +887,14 @@ fn judge_one(exp: &Exp, got: &T) -> Result<Option<String>, String> {
             }
             Err(last)
         }
+    }
+}
+
+/// a stream with an alias is named by its alias in error terms
+fn strip_alias(f: &T) -> T {
+    match f {
+        T::Cmp(n, a) if n == "permission_error" && a.len() == 3 && matches!(&a[2], T::Atom(_)) => term::cmp("permission_error", vec![a[0].clone(), a[1].clone(), term::atom("$s")]),
+        other => other.clone(),
     }
 }
 
@@ -1115,6 +1123,80 @@ pub fn check(env: &mut Env, c: &Case) -> Verdict {
     Verdict::pass(nontrivial, &classes)
 }
 
+/// In-memory variant: the modelled content is the machine's user_input (built from a string), the
+/// read script runs on it with the default options (text, eof_code, no reposition).
+pub fn check_mem(_env: &mut (), c0: &Case) -> Verdict {
+    let c = &Case { binary: false, eof: 1, reposition: false, split: 255, ..c0.clone() };
+    let w1 = plan_write(c, &c.items, 0);
+    let bytes = w1.bytes.clone();
+    let clauses = w1.clauses.clone();
+    let Ok(text) = String::from_utf8(bytes.clone()) else { return Verdict::Discard("harness:payload-not-utf8".into()) };
+    let machine = scryer_prolog::MachineBuilder::default()
+        .with_streams(scryer_prolog::StreamConfig::in_memory().with_user_input(scryer_prolog::InputStreamConfig::string(text)))
+        .build();
+    let mut s = Session::with_machine(machine, &["charsio", "format"]);
+    if !s.consult(C19_PL, "c19") {
+        return Verdict::Discard("harness:c19.pl rejected".into());
+    }
+    let mut env = Env { s };
+    let mut m = Model {
+        bytes: &bytes,
+        binary: false,
+        eof: 1,
+        reposition: false,
+        cur: 0,
+        past: false,
+        lines: 0,
+        lines_alt: None,
+        saved: HashMap::new(),
+        clauses: &clauses,
+        peek_before_multibyte: false,
+        read_past_end: false,
+        pos_after_newline: false,
+        newline_consumed: false,
+        repositioned: false,
+        resets: 0,
+        quirk: false,
+        blind: false,
+    };
+    let rplan = plan_reads(c, &mut m);
+    let what = format!("user_input built from the string {:?}, read script", String::from_utf8_lossy(&bytes));
+    let mut known: Option<(String, String)> = None;
+    if let Err((sig, detail)) = run_reads(&mut env, "c19_read_user(", &rplan, &what, &bytes, c, &mut known) {
+        if sig.starts_with("harness:") {
+            return Verdict::Discard(sig);
+        }
+        // One root cause explains what goes wrong on an in-memory input stream once its reader has
+        // buffered the content: Stream::position and the end-of-stream test look at the cursor of
+        // the underlying buffer, not at what has been consumed. The model cannot follow that; the
+        // failure is classified by the kind of step that went wrong first.
+        let step = sig.split(':').nth(1).unwrap_or("?");
+        let class = match step {
+            "pos" | "save" | "rt" => "position",
+            "ae" | "eos" => "end-test",
+            _ => "data",
+        };
+        if !bytes.is_empty() && sig.starts_with("read-step:") {
+            return Verdict::fail(format!("mem:buffered-content-ignored:{class}"), detail);
+        }
+        return Verdict::fail(format!("mem:{sig}"), detail);
+    }
+    if let Some((sig, detail)) = known {
+        return Verdict::fail(format!("mem:{sig}"), detail);
+    }
+    let mut classes: Vec<&str> = vec!["memory-stream"];
+    if m.peek_before_multibyte {
+        classes.push("mem:peek-before-multibyte");
+    }
+    if m.read_past_end {
+        classes.push("mem:read-at-or-past-end");
+    }
+    if rplan.iter().any(|(n, _)| n == "rt") {
+        classes.push("mem:read_term");
+    }
+    Verdict::pass(m.read_past_end && rplan.len() >= 3 && !bytes.is_empty(), &classes)
+}
+
 pub struct C19;
 
 impl Prop for C19 {
@@ -1135,9 +1217,15 @@ impl Prop for C19 {
         let mut d = Driver::new(cfg, "C19");
         let n = cfg.share(cfg.tier.pick(8_000, 400_000));
         d.run("script", 0, n, 300, case_strategy(), &mk_env, &check);
+        // in-memory stream: a machine per case (0.2 s), hence few cases
+        let nm = cfg.share(cfg.tier.pick(480, 24_000));
+        d.run("mem", 1, nm, 1, case_strategy(), &|| (), &check_mem);
         d.finish()
     }
-    fn replay(&self, _kind: &str, case: &Value) -> Verdict {
-        replay_case::<Case, Env>(case, &mk_env, &check)
+    fn replay(&self, kind: &str, case: &Value) -> Verdict {
+        match kind {
+            "mem" => replay_case::<Case, ()>(case, &|| (), &check_mem),
+            _ => replay_case::<Case, Env>(case, &mk_env, &check),
+        }
     }
 }
